@@ -7,6 +7,9 @@
   R-C17-params-reach-every-evaluation   in Validate::execute the value folded from --input-parameters is what every evaluation sink
                           receives (evaluate_rule's extra_data in both plain branches, StructuredEvaluator.input_params in both
                           structured branches)
+  R-C17-every-file-loaded a file found by a discovery loop of Validate::execute is skipped only for not being a regular file or not
+                          having a supported extension; walk_dir applies nothing that drops entries
+  R-C17-file-discovery-agreement / R-C17-merge-operand-order   (see the functions' docstrings)
 Not claimed: independence from the order of parameter files (observable only through reporting order).
 """
 from engine import flow, ai, cg, mirlib as M
